@@ -264,14 +264,17 @@ func runC09(r *Run) {
 		// library's own message lock, not in the transport)
 		d := track("waiting-writer")
 		r.S.Go("opener", func() {
-			if w, err := c.Writer(bg, websocket.MessageText); err == nil {
-				w.Write([]byte("left open"))
-			}
+			w, err := c.Writer(bg, websocket.MessageText)
 			r.S.Go("waiting-writer", func() {
 				stateReady = true
 				_ = c.Write(bg, websocket.MessageBinary, []byte("second message"))
 				*d = r.S.Now()
 			})
+			if err == nil {
+				// (after the second writer was started: whether this chunk stays in the
+				// write buffer or blocks in the transport is the library's business)
+				w.Write([]byte("left open"))
+			}
 		})
 	case 9:
 		// the connection is already closed when CloseRead is called for the first
